@@ -3,6 +3,11 @@
     fragment  policy → membership in the proved fragments (`policyOK false/true`, `policyOKGo`)
     marshal   policy (+ the tokens Go's scanner produced for Go's own `MarshalCedar` output) →
               `text=<hex of the model's bytes> toks=same|diff` ; `skip` outside the modelled domain
+    marshal-value   a value (the content of a `NodeValue`) → `ctext=<hex> parse=<tree|err>`: the model's
+              `Value.MarshalCedar` with the member renderings of every set in ascending text order (Go writes them in
+              hash-slot order: the harness brings Go's real output into the same order), and the model parser's
+              reading of that text; `skip` outside the modelled domain
+    value-fragment  is the value inside `valOK`, the domain of C08_marshal_value_meaning_partial?
 -/
 import CedarGo.Driver.Ops.C07
 import CedarGo.Model.Text.Marshal
@@ -31,8 +36,31 @@ def opMarshalParseC08 : Handler := fun _ j => do
 def opFragmentC08 : Handler := fun _ j => do
   let p ← decPolicy (← field j "policy")
   let p := { p with position := {} }
-  .ok s!"min={policyOK false p} full={policyOK true p} go={policyOKGo p}"
+  .ok s!"min={policyOK false p} full={policyOK true p} go={policyOKGo p} gov={policyOKGoV p}"
 
-def c08Ops : List (String × Handler) := [("marshal", opMarshalC08), ("marshal-parse", opMarshalParseC08), ("fragment", opFragmentC08)]
+/-- insertion into a list of renderings kept in ascending order of their text -/
+def insByTextC08 (x : List Piece) : List (List Piece) → List (List Piece)
+  | [] => [x]
+  | y :: ys => if pieceText y < pieceText x then y :: insByTextC08 x ys else x :: y :: ys
+
+/-- the canonical member order used to compare a set's bytes with Go's: ascending text of the member renderings -/
+def sortByTextC08 (xs : List (List Piece)) : List (List Piece) := xs.foldr insByTextC08 []
+
+def opMarshalValueC08 : Handler := fun _ j => do
+  let v ← decValue (← field j "value")
+  if !litModelled v then .error "unmodelled-value" else
+  let ps := marshalValW sortByTextC08 v
+  let parsed := match parseExpr (pieceToks ps) with
+    | none => "fuel"
+    | some (.error _) => "err"
+    | some (.ok (e, rest)) => if rest.isEmpty then "ok " ++ showExprC07 e else "trailing"
+  .ok s!"ctext={hex (pieceText ps)} parse={parsed}"
+
+def opValueFragmentC08 : Handler := fun _ j => do
+  let v ← decValue (← field j "value")
+  .ok s!"valok={valOK v}"
+
+def c08Ops : List (String × Handler) := [("marshal", opMarshalC08), ("marshal-parse", opMarshalParseC08), ("fragment", opFragmentC08),
+  ("marshal-value", opMarshalValueC08), ("value-fragment", opValueFragmentC08)]
 
 end CedarGo.Driver
